@@ -1,5 +1,5 @@
 """Shared driver for the run-time properties: items -> Refine (TLC) -> violations + evidence numbers."""
-import time, collections
+import os, time, collections
 from . import common, runner, hidc_api, svm, sasm
 
 
@@ -29,15 +29,34 @@ class Stats:
 
 def presize(items, max_steps, limit_factor=1):
     """Accelerator (never decides): drop cases whose machine run is too long for TLC, using the fast VM."""
+    items = list(items)
+    par = min(int(os.environ.get('HV_PRESIZE_PAR', '8')), common.NPROC)
+    if len(items) < 300 or par <= 1:
+        return _presize(items, max_steps, limit_factor)
+    import concurrent.futures, multiprocessing
+    n = (len(items) + par * 4 - 1) // (par * 4)
+    parts = [items[i:i + n] for i in range(0, len(items), n)]
+    with concurrent.futures.ProcessPoolExecutor(max_workers=par, mp_context=multiprocessing.get_context('fork')) as pool:
+        backs = list(pool.map(_presize_job, [(p, max_steps, limit_factor) for p in parts]))
+    for part, back in zip(parts, backs):
+        for it, (skip, extra) in zip(part, back):
+            it.skip = skip
+            it.meta.update(extra)
+    return items
+
+
+def _presize_job(a):
+    part, max_steps, limit_factor = a
+    before = [set(it.meta) for it in part]
+    _presize(part, max_steps, limit_factor)
+    return [(it.skip, {k: v for k, v in it.meta.items() if k not in b}) for it, b in zip(part, before)]
+
+
+def _presize(items, max_steps, limit_factor=1):
     keep = []
     cache = {}
     for it in items:
-        ck = (it.src, it.w, it.s, it.unchecked, tuple(sorted(it.opt.items())))
-        if ck not in cache:
-            try:
-                cache[ck] = hidc_api.compile_src(it.src, w=it.w, s=it.s, unchecked=it.unchecked, **it.opt)
-            except (hidc_api.Rejected, hidc_api.Crashed) as e:
-                cache[ck] = e
+        ck, cache[ck] = runner.compile_cached(it)
         if isinstance(cache[ck], Exception):
             it.skip = 'compile: %s' % cache[ck]
             it.meta['compile_kind'] = type(cache[ck]).__name__
@@ -57,6 +76,21 @@ def presize(items, max_steps, limit_factor=1):
     return keep
 
 
+class _R:
+    """what the parent needs of a tlc.Result"""
+    def __init__(self, r):
+        self.distinct, self.generated, self.wall, self.timed_out = r.distinct, r.generated, r.wall, r.timed_out
+
+
+def _batch_job(chunk, w, monitors, max_level, timeout, max_alloc, workers):
+    before = [set(it.meta) for it in chunk]
+    r = runner.run_refine(chunk, w=w, monitors=monitors, max_level=max_level, timeout=timeout, max_alloc=max_alloc,
+                          workers=workers)
+    back = [(it.skip, it.result, it.meta.get('features'), {k: v for k, v in it.meta.items() if k not in b and k != 'features'})
+            for it, b in zip(chunk, before)]
+    return (None if r is None else _R(r)), back
+
+
 def run(items, stats, monitors=True, max_level=9000, batch=400, timeout=900, max_alloc=256):
     """Run items through Refine in batches per word size.  Fills it.result / it.skip and stats."""
     by_w = collections.defaultdict(list)
@@ -65,11 +99,26 @@ def run(items, stats, monitors=True, max_level=9000, batch=400, timeout=900, max
             stats.skipped[it.skip.split(':')[0]] += 1
             continue
         by_w[it.w].append(it)
-    for w, its in sorted(by_w.items()):
-        for i in range(0, len(its), batch):
-            chunk = its[i:i + batch]
-            r = runner.run_refine(chunk, w=w, monitors=monitors, max_level=max_level, timeout=timeout,
-                                  max_alloc=max_alloc)
+    chunks = [(w, its[i:i + batch]) for w, its in sorted(by_w.items()) for i in range(0, len(its), batch)]
+    # several TLC processes side by side (the compiler/translator part of a batch is serialised by runner.PREP_LOCK):
+    # start-up, parsing and the evaluation of the batch constants of one batch overlap with the search of another
+    par = max(1, min(int(os.environ.get('HV_PAR', '3')), len(chunks)))
+    workers = max(4, common.NPROC // par)
+    import concurrent.futures, multiprocessing
+    if par == 1:
+        results = [_batch_job(chunk, w, monitors, max_level, timeout, max_alloc, workers) for w, chunk in chunks]
+    else:
+        # one forked child per batch: it compiles, translates, exports, runs TLC and decodes the verdicts
+        with concurrent.futures.ProcessPoolExecutor(max_workers=par, mp_context=multiprocessing.get_context('fork')) as pool:
+            futs = [pool.submit(_batch_job, chunk, w, monitors, max_level, timeout, max_alloc, workers) for w, chunk in chunks]
+            results = [f.result() for f in futs]
+    for (w, chunk), (r, back) in zip(chunks, results):
+        for it, (skip, result, feats, extra) in zip(chunk, back):
+            it.skip, it.result = skip, result
+            if feats is not None:
+                it.meta['features'] = feats
+            it.meta.update(extra)
+        if True:
             if r is None:
                 for it in chunk:
                     if it.skip:
